@@ -79,6 +79,10 @@ Definition database_open (bs : bytes) : out (fstate * ptr) :=
   else Ok (f', root).
 
 (* ---------------------------------------------------------------- strings *)
+(* strcspn(s, ">"): the index of the first '>' or NUL; None = neither inside s *)
+Fixpoint first_stop (s : bytes) : option nat :=
+  match s with [] => None | c :: t => if (c =? 62) || (c =? 0) then Some O else option_map S (first_stop t) end.
+
 Fixpoint drop_blanks (r : bytes) : bytes := match r with c :: t => if c =? 32 then drop_blanks t else r | [] => r end.
 (* ADFI_string_2_C_string *)
 Definition c_string (s : bytes) (n : nat) : bytes := rev (drop_blanks (rev (cstr_or_all (firstn n s)))).
@@ -96,6 +100,25 @@ Fixpoint split_slash_aux (s cur : bytes) : list bytes :=
 Definition split_slash (s : bytes) : list bytes := split_slash_aux s [].
 Fixpoint index_of (c : Z) (s : bytes) : option nat :=
   match s with [] => None | x :: t => if x =? c then Some O else option_map S (index_of c t) end.
+
+(* ADF_Database_Version(root, version[cap], ..): the text between "@(#)" and '>' of the what field.
+   Legacy: strcspn runs over struct FILE_HEADER as it lies in memory -- what[32] is followed by tag0, the creation
+   date, tag1, the modification date, tag2, the two format letters and tag3 (106 characters), then padding. *)
+Definition VER_CAP := 33.
+Definition database_version (f : fstate) (cap : Z) : out bytes :=
+  h <- read_file_header f ;;
+  let what := fh_what h in
+  if fx_ver cfg then
+    let L := match first_stop (firstn 32 what) with Some k => k | None => length (firstn 32 what) end in
+    let v := c_string (skipn 4 what) (L - 4) in
+    if Z.of_nat (length v) + 1 >? cap then OOBW 9 else Ok v
+  else
+    let mem := what ++ tag_AdF 0 ++ fh_cdate h ++ tag_AdF 1 ++ fh_mdate h ++ tag_AdF 2 ++ [fh_fmt h; fh_os h] ++ tag_AdF 3 in
+    match first_stop mem with
+    | None => OOBW 9
+    | Some L => let v := c_string (skipn 4 mem) (L - 4) in
+                if Z.of_nat (length v) + 1 >? cap then OOBW 9 else Ok v
+    end.
 
 (* ---------------------------------------------------------------- chunks *)
 Definition read_node_header (f : fstate) (p : ptr) : out node_header :=
@@ -511,6 +534,7 @@ Inductive ev :=
 | EvM (r : out (list bytes))                 (* ADF_Children_Names *)
 | EvI (r : out (list ptr))                   (* ADF_Children_IDs *)
 | EvG (r : out ptr)                          (* ADF_Get_Node_ID(parent, child name) *)
+| EvVer (r : out bytes)                      (* ADF_Database_Version *)
 | EvFuel.
 
 Definition clean {A} (r : out A) : bool := match r with Ok _ | Err _ => true | _ => false end.
@@ -619,8 +643,10 @@ Inductive walk_result := WOpenFail (r : out unit) | WOk (root : ptr) (evs : list
 Definition walk (fuel : nat) (bs : bytes) : walk_result :=
   match database_open bs with
   | Ok (f, root) =>
+      let rv := database_version f VER_CAP in
+      if negb (clean rv) then WOk root [EvVer rv] else
       let '(evs, k) := visit f root 0 in
-      WOk root (match k with Some kids => evs ++ walk_loop fuel f kids | None => evs end)
+      WOk root (EvVer rv :: match k with Some kids => evs ++ walk_loop fuel f kids | None => evs end)
   | r => WOpenFail (bind r (fun _ => Ok tt))
   end.
 
@@ -718,6 +744,8 @@ Definition wit_longpath : bytes :=
 Definition wit_nosep : bytes :=
   wit_one wit_header [76] (mk_node [76] [] [76; 75] 0 0 blank_ptr 1 4901 1 (0, 1130))
     (enc_data_chunk wa (1, 1951) (repeat 102 900 ++ [70] ++ repeat 112 4000)).
+(* 20: the '>' that ends the version (byte 31) damaged *)
+Definition wit_ver : bytes := firstn 31 wit_valid ++ [88] ++ skipn 32 wit_valid.
 (* 05, other letter: format byte 0xFF (a negative char) *)
 Definition wit_fmtneg : bytes := firstn 100 wit_valid ++ [255] ++ skipn 101 wit_valid.
 (* 07: array length that does not fit an int *)
